@@ -160,4 +160,53 @@ mod verif_kani {
         kani::cover!(!all && n >= 1 && n < len);
         kani::cover!(all && len >= 2);
     }
+
+    // ------------------------------------------------------------------------------------------------
+    // property C47, "same answer with the operands swapped and the operator mirrored": Operator::swap (and negate) for the
+    // comparison operators against SQL's three-valued comparison of two nullable integers.  Loop-free over all values.
+    // ------------------------------------------------------------------------------------------------
+    use crate::operator::Operator;
+    /// SQL comparison of two nullable integers: None = NULL (unknown)
+    fn sql_cmp(op: Operator, a: Option<i64>, b: Option<i64>) -> Option<bool> {
+        match op {
+            Operator::IsDistinctFrom => Some(a != b),
+            Operator::IsNotDistinctFrom => Some(a == b),
+            _ => match (a, b) {
+                (Some(x), Some(y)) => Some(match op {
+                    Operator::Eq => x == y, Operator::NotEq => x != y, Operator::Lt => x < y,
+                    Operator::LtEq => x <= y, Operator::Gt => x > y, _ => x >= y,
+                }),
+                _ => None,
+            },
+        }
+    }
+    fn any_opt() -> Option<i64> { if kani::any() { Some(kani::any()) } else { None } }
+    #[kani::proof]
+    #[kani::unwind(9)]
+    fn c47_operator_mirror_and_negation() {
+        let ops = [Operator::Eq, Operator::NotEq, Operator::Lt, Operator::LtEq, Operator::Gt, Operator::GtEq,
+                   Operator::IsDistinctFrom, Operator::IsNotDistinctFrom];
+        let (a, b) = (any_opt(), any_opt());
+        let mut i = 0;
+        while i < 8 {
+            let op = ops[i];
+            match op.swap() {
+                Some(m) => {
+                    assert!(sql_cmp(m, b, a) == sql_cmp(op, a, b), "C47.operator.mirrored_operator_on_swapped_operands_gives_the_same_answer");
+                    assert!(m.swap() == Some(op), "C47.operator.swap_is_an_involution");
+                }
+                None => assert!(false, "C47.operator.every_comparison_can_be_mirrored"),
+            }
+            match op.negate() {
+                Some(n) => {
+                    let (x, y) = (sql_cmp(op, a, b), sql_cmp(n, a, b));
+                    assert!(match (x, y) { (Some(p), Some(q)) => p != q, (None, None) => true, _ => false }, "C47.operator.negated_operator_gives_the_negated_answer");
+                }
+                None => assert!(false, "C47.operator.every_comparison_can_be_negated"),
+            }
+            i += 1;
+        }
+        kani::cover!(a.is_none() && b.is_some());
+        kani::cover!(a.is_some() && b.is_some());
+    }
 }
